@@ -59,3 +59,15 @@ Proof.
   - destruct (present args) as [|x [|[] [|z l]]]; try discriminate. simpl.
     rewrite lits_bx, !app_nil_r. reflexivity.
 Qed.
+
+Lemma build_std_content_main kinds t :
+  well_kinded kinds t = true ->
+  olits (build (fun p => std_action (kinds p)) t) = content t.
+Proof.
+  induction t as [c v | p ch IH] using dtree_ind'; intros Hwk.
+  - destruct c; reflexivity.
+  - simpl in Hwk. apply andb_true_iff in Hwk. destruct Hwk as [Hf Hch].
+    simpl. rewrite (std_action_main _ _ Hf). apply args_lits_map.
+    rewrite forallb_forall in Hch. rewrite Forall_forall in IH |- *.
+    intros t Ht. apply IH; [exact Ht | apply Hch; exact Ht].
+Qed.
